@@ -125,27 +125,20 @@ func checkC35(c *Ctx) (string, []string) {
 	_ = vcResolve
 
 	c.Rule("C35.clearing", "ClearWorkReports removes from pending availability exactly the reports judged bad or wonky: its threshold predicate holds for 0 and ⌊V/3⌋ positive votes and fails for ⌊2V/3⌋+1 (evaluated for V ∈ {5,6,7,9,100,1023}); the cleared set is matched against the hash of each pending report", 2)
-	if fd, p := c.FuncDecl(extrPkg, "VerdictController.ClearWorkReports"); fd != nil {
-		var cond ast.Expr
-		sumText := ""
-		ast.Inspect(fd.Body, func(n ast.Node) bool {
-			ifs, ok := n.(*ast.IfStmt)
-			if !ok || cond != nil {
-				return true
+	{
+		// decided by valuation: one iteration of the loop over the verdict summaries is followed with the positive-vote
+		// count and the validator count valued, and whether the report is put into the cleared set is read off
+		var mark *ssa.MapUpdate
+		allInstrs(clr, func(in ssa.Instruction) {
+			if mu, ok := in.(*ssa.MapUpdate); ok && strings.HasSuffix(abbr(exprStr(mu.Key, shapeOpts)), ".ReportHash") {
+				mark = mu
 			}
-			ast.Inspect(ifs.Cond, func(m ast.Node) bool {
-				if se, ok := m.(*ast.SelectorExpr); ok && se.Sel.Name == "PositiveJudgmentsSum" {
-					sumText = types.ExprString(se)
-				}
-				return true
-			})
-			if sumText != "" {
-				cond = ifs.Cond
-			}
-			return true
 		})
-		if cond == nil {
-			c.Unknown("C35.clearing", X+"ClearWorkReports · threshold", fd.Pos(), "no condition on the positive-vote count found")
+		key := X + "ClearWorkReports · threshold"
+		if mark == nil {
+			c.Unknown("C35.clearing", key, clr.Pos(), "no set of reports to clear is filled from the verdict summaries")
+		} else if h, in := natLoop(mark.Block()); h == nil {
+			c.Unknown("C35.clearing", key, clr.Pos(), "the cleared set is not filled in a loop over the verdict summaries")
 		} else {
 			bad := ""
 			for _, V := range Vs {
@@ -153,19 +146,30 @@ func checkC35(c *Ctx) (string, []string) {
 					sum  int64
 					want bool
 					name string
-				}{{0, true, "bad"}, {V / 3, true, "wonky"}, {V*2/3 + 1, false, "good"}} {
-					got, ok := astEval(p.TypesInfo, cond, vcResolve(V, tc.sum, sumText))
-					if !ok {
-						bad = "threshold condition is not arithmetic over the vote count and the validator count"
-					} else if got.b != tc.want {
-						bad = fmt.Sprintf("V=%d: a %s verdict (%d positive votes) is cleared=%v, GP 10.15 requires %v", V, tc.name, tc.sum, got.b, tc.want)
+				}{{0, true, "bad"}, {V / 3, true, "wonky"}, {V*2/3 + 1, false, "good"}, {V, false, "unanimous"}} {
+					marked, valued := false, false
+					_, _, ok := iterRun(h, in, shapeOpts, func(s string) (int64, bool) {
+						if strings.HasSuffix(s, ".PositiveJudgmentsSum") {
+							valued = true
+							return tc.sum, true
+						}
+						return 0, false
+					}, map[string]int64{"ValidatorsCount": V}, func(x ssa.Instruction, _ map[*ssa.Phi]ssa.Value) {
+						if x == ssa.Instruction(mark) {
+							marked = true
+						}
+					})
+					if !ok || !valued {
+						bad = "the clearing decision is not arithmetic over the vote count and the validator count"
+					} else if marked != tc.want {
+						bad = fmt.Sprintf("V=%d: a %s verdict (%d positive votes) is cleared=%v, GP 10.15 requires %v", V, tc.name, tc.sum, marked, tc.want)
 					}
 				}
 			}
 			if bad == "" {
-				c.OK("C35.clearing", X+"ClearWorkReports · threshold", cond.Pos(), "clears bad and wonky, keeps good, for %d validator counts (%d..%d)", len(Vs), Vs[0], Vs[len(Vs)-1])
+				c.OK("C35.clearing", key, mark.Pos(), "clears bad and wonky, keeps good, for %d validator counts (%d..%d)", len(Vs), Vs[0], Vs[len(Vs)-1])
 			} else {
-				c.Bad("C35.clearing", X+"ClearWorkReports · threshold", cond.Pos(), "%s", bad)
+				c.Bad("C35.clearing", key, mark.Pos(), "%s", bad)
 			}
 		}
 	}
@@ -425,6 +429,10 @@ func c35Merge(c *Ctx, f *ssa.Function, key, prior, added, name string) {
 							freshPrior = true
 						}
 					}
+					// or element by element, in a loop over the whole prior list, onto a list made here
+					if el == "["+prior+"[*]][:]" && growsFromFresh(x.Call.Args[0], 0) {
+						freshPrior = true
+					}
 				}
 			} else if _, ok := byteOrderSort(x); ok {
 				sortCall = &c35site{in, g, subst}
@@ -478,6 +486,45 @@ func isFreshSliceBase(v ssa.Value) bool {
 	case *ssa.Slice:
 		if k, ok := constInt(x.High); ok && k == 0 {
 			return isFreshSliceBase(x.X)
+		}
+	}
+	return false
+}
+
+// growsFromFresh: v is a list made in this function (make / nil / x[:0] of one) or the result of appending to such
+// a list, through the loop's phis.
+func growsFromFresh(v ssa.Value, d int) bool {
+	if d > 8 {
+		return false
+	}
+	v = stripConv(v)
+	if isFreshSliceBase(v) {
+		return true
+	}
+	switch x := v.(type) {
+	case *ssa.Phi:
+		ok, some := true, false
+		for _, e := range x.Edges {
+			if stripConv(e) == ssa.Value(x) {
+				continue
+			}
+			if call, isCall := stripConv(e).(*ssa.Call); isCall {
+				if b, isB := call.Call.Value.(*ssa.Builtin); isB && b.Name() == "append" {
+					// appended onto this same phi (the loop's own growth) or onto another fresh list
+					if stripConv(call.Call.Args[0]) == ssa.Value(x) {
+						continue
+					}
+				}
+			}
+			some = true
+			if !growsFromFresh(e, d+1) {
+				ok = false
+			}
+		}
+		return ok && some
+	case *ssa.Call:
+		if b, isB := x.Call.Value.(*ssa.Builtin); isB && b.Name() == "append" {
+			return growsFromFresh(x.Call.Args[0], d+1)
 		}
 	}
 	return false
